@@ -87,6 +87,10 @@ pub fn zero85_encode(xs: &mut Xstate) -> Xresult {
 
 pub fn zero85_decode_res(xs: &mut Xstate) -> Xresult1<Xbitstr> {
     let s = xs.pop_data()?.to_xstr()?;
+    // a last chunk made only of tail markers is invalid, and the z85 crate panics on it
+    if s.ends_with("#####") {
+        return Err(Xerr::ErrorMsg(xeh_xstr!("zero85 decode error")));
+    }
     let res = z85::decode(&s)
         .map_err(|_| Xerr::ErrorMsg(xeh_xstr!("zero85 decode error")))?;
     Ok(Xbitstr::from(res))
